@@ -169,6 +169,10 @@ fn ae_value(i: usize) -> http::HeaderValue {
     http::HeaderValue::from_str(AE[i].1).unwrap()
 }
 
+fn builder_call_order(cfg: &Cfg) -> u64 {
+    mix(cfg.seed ^ 0xB01D, cfg.chunk as u64)
+}
+
 fn build(cfg: &Cfg) -> (http::Response<SimBody>, Option<W>, bool) {
     let mut b = http::Request::builder().method(cfg.method).uri("/s").version(match cfg.version {
         1 => http::Version::HTTP_10,
@@ -192,13 +196,22 @@ fn build(cfg: &Cfg) -> (http::Response<SimBody>, Option<W>, bool) {
     let req = b.body(()).unwrap();
     let expect_gzip = http_serve::should_gzip(req.headers()) && cfg.level > 0;
     let configure = |mut b: http_serve::StreamingBodyBuilder| {
-        for &l in &cfg.earlier_levels {
-            b = b.with_gzip_level(l);
+        // The calls of each kind stay in their order (the last one of a kind is the configured
+        // value); how the two kinds interleave is part of the history. It is derived from the
+        // already drawn content seed, so that recorded tapes keep their meaning.
+        let mut levels: std::collections::VecDeque<u32> = cfg.earlier_levels.iter().copied().chain([cfg.level]).collect();
+        let mut chunks: std::collections::VecDeque<usize> = cfg.earlier_chunks.iter().copied().chain([cfg.chunk]).collect();
+        let mut bits = builder_call_order(cfg);
+        while !levels.is_empty() || !chunks.is_empty() {
+            let take_level = if levels.is_empty() { false } else if chunks.is_empty() { true } else { bits & 1 == 1 };
+            bits >>= 1;
+            if take_level {
+                b = b.with_gzip_level(levels.pop_front().unwrap());
+            } else {
+                b = b.with_chunk_size(chunks.pop_front().unwrap());
+            }
         }
-        for &c in &cfg.earlier_chunks {
-            b = b.with_chunk_size(c);
-        }
-        b.with_chunk_size(cfg.chunk).with_gzip_level(cfg.level)
+        b
     };
     let (resp, w) = if cfg.as_parts {
         let (parts, _) = req.into_parts();
@@ -235,6 +248,9 @@ struct Sim {
     unflushed: Option<usize>,
     /// Bytes accepted since the last successful flush (any coding).
     since_flush: usize,
+    /// Bytes handed to write / write_vectored / write_all calls since the stream was last seen
+    /// complete (start, or a flush after which everything accepted was decodable).
+    given_since_complete: usize,
     /// Bytes accepted by writes invoked after the body was dropped and not yet followed by a flush.
     ok_after_drop_unflushed: usize,
     frames: u64,
@@ -356,6 +372,7 @@ impl Sim {
     /// One `write` call; returns Ok(k) / Err.
     fn write(&mut self, n: usize) -> Option<Result<usize, String>> {
         let buf = self.gen_bytes(n);
+        self.given_since_complete += n;
         let w = self.w.as_mut()?;
         let r = match catch(|| w.write(&buf)) {
             Ok(r) => r.map_err(|e| e.to_string()),
@@ -393,6 +410,7 @@ impl Sim {
     fn write_vectored(&mut self, sizes: &[usize]) -> Option<Result<usize, String>> {
         let n: usize = sizes.iter().sum();
         let buf = self.gen_bytes(n);
+        self.given_since_complete += n;
         let mut slices = Vec::new();
         let mut o = 0;
         for &l in sizes {
@@ -455,6 +473,9 @@ fn finish_log(sim: &Sim) -> (bool, bool) {
     let errored = matches!(sim.log.terminal.map(|i| &sim.log.steps[i].1), Some(Step::Err(_)));
     (clean, errored)
 }
+
+/// See the F6 classification in the flush arm.
+const F6_MIN_CALL: usize = 30_000;
 
 pub fn run(ctx: &mut Ctx) -> Result<RunOut, Violation> {
     let focus = ctx.focus;
@@ -523,6 +544,7 @@ pub fn run(ctx: &mut Ctx) -> Result<RunOut, Violation> {
         framing: None,
         unflushed: Some(0),
         since_flush: 0,
+        given_since_complete: 0,
         ok_after_drop_unflushed: 0,
         frames: 0,
         empty_frames: 0,
@@ -539,7 +561,7 @@ pub fn run(ctx: &mut Ctx) -> Result<RunOut, Violation> {
         "chunk={} level={}{} accept-encoding={} method={}{} repr={} payload={}",
         sim.cfg.chunk,
         sim.cfg.level,
-        if sim.cfg.earlier_levels.is_empty() && sim.cfg.earlier_chunks.is_empty() { String::new() } else { format!(" (after earlier builder calls levels {:?} chunks {:?})", sim.cfg.earlier_levels, sim.cfg.earlier_chunks) },
+        if sim.cfg.earlier_levels.is_empty() && sim.cfg.earlier_chunks.is_empty() { String::new() } else { format!(" (after earlier builder calls levels {:?} chunks {:?}, interleaving bits {:b})", sim.cfg.earlier_levels, sim.cfg.earlier_chunks, builder_call_order(&sim.cfg) & 0x3f) },
         if sim.cfg.ae_present { format!("{}{}", AE[sim.cfg.ae].0, sim.cfg.ae_second_line.map(|l| format!(" + second line {}", AE[l].0)).unwrap_or_default()) } else { "absent".to_string() },
         sim.cfg.method,
         {
@@ -568,7 +590,7 @@ pub fn run(ctx: &mut Ctx) -> Result<RunOut, Violation> {
             };
         }
         // Same headers as the GET twin, body delivers nothing.
-        let twin = Cfg { method: "GET", other: sim.cfg.other, version: sim.cfg.version, ae_second_line: sim.cfg.ae_second_line, earlier_levels: sim.cfg.earlier_levels.clone(), earlier_chunks: sim.cfg.earlier_chunks.clone(), chunk: sim.cfg.chunk, level: sim.cfg.level, ae: sim.cfg.ae, ae_present: sim.cfg.ae_present, as_parts: sim.cfg.as_parts, payload: 0, seed: 0 };
+        let twin = Cfg { method: "GET", other: sim.cfg.other, version: sim.cfg.version, ae_second_line: sim.cfg.ae_second_line, earlier_levels: sim.cfg.earlier_levels.clone(), earlier_chunks: sim.cfg.earlier_chunks.clone(), chunk: sim.cfg.chunk, level: sim.cfg.level, ae: sim.cfg.ae, ae_present: sim.cfg.ae_present, as_parts: sim.cfg.as_parts, payload: 0, seed: sim.cfg.seed };
         let (gresp, _gw, _) = build(&twin);
         let hs = |r: &http::HeaderMap| {
             let mut v: Vec<(String, Vec<u8>)> = r.iter().map(|(k, v)| (k.as_str().to_string(), v.as_bytes().to_vec())).collect();
@@ -603,7 +625,9 @@ pub fn run(ctx: &mut Ctx) -> Result<RunOut, Violation> {
 
     // ---- The history.
     let want_abort = matches!(focus, "C11" | "C20" | "C12") && ctx.tape.chance(if focus == "C11" { 2 } else { 1 }, 4);
-    let want_body_drop = focus == "C11" && !want_abort && ctx.tape.chance(2, 3);
+    // Body drop: alone, or (one abort run in three) together with the abort, in either order -
+    // "after abort every later write or flush fails" holds whether or not the client is still there.
+    let want_body_drop = focus == "C11" && ctx.tape.chance(if want_abort { 1 } else { 2 }, 3);
     // Swarm: half of the runs use a restricted mix - a random subset of the operation kinds
     // and one class of write sizes - and are longer; patterns such as "many tiny flushed writes
     // and then the chunk boundary" are common there and all but absent from a uniform mix.
@@ -618,6 +642,7 @@ pub fn run(ctx: &mut Ctx) -> Result<RunOut, Violation> {
     }
     let n_ops = 1 + ctx.tape.draw(if crate::core::deep() { 30 } else if swarm { 24 } else { 12 });
     let fault_at = ctx.tape.draw(n_ops + 1);
+    let drop_at = if want_abort && want_body_drop { ctx.tape.draw(n_ops + 1) } else { fault_at };
     let mut flush_checks = 0u64;
     let mut kinds: Vec<&'static str> = Vec::new();
     let mut sig = mix(0xB0, hash_str(&cfg_desc));
@@ -638,7 +663,13 @@ pub fn run(ctx: &mut Ctx) -> Result<RunOut, Violation> {
                 sim.ops.push(format!("abort(polled_before={queued_before})"));
                 ctx.stats.bump("fault_abort");
                 sig = mix(sig, 0xAB0 + opi as u64);
-            } else if want_body_drop && sim.body.is_some() {
+            }
+        }
+        if opi == drop_at {
+            if want_body_drop && sim.body.is_some() {
+                if want_abort {
+                    ctx.stats.bump("fault_abort_and_body_drop_in_one_run");
+                }
                 let b = sim.body.take();
                 if let Err(p) = catch(move || drop(b)) {
                     sim.panic = Some(format!("dropping the body panicked: {p}"));
@@ -763,6 +794,7 @@ pub fn run(ctx: &mut Ctx) -> Result<RunOut, Violation> {
                 if t.chance(1, 2) {
                     // The writer's own `write_all` (std's default unless the crate overrides it).
                     let buf = sim.gen_bytes(n);
+                    sim.given_since_complete += n;
                     let live = !sim.aborted && !sim.writer_dead && !sim.body_gone;
                     let Some(w) = sim.w.as_mut() else { break };
                     let r = match catch(|| w.write_all(&buf)) {
@@ -843,14 +875,26 @@ pub fn run(ctx: &mut Ctx) -> Result<RunOut, Violation> {
                         if let GzState::Invalid(e) = &st {
                             return violation(focus_static(focus), "undecodable-after-flush", format!("{cfg_desc}: {e}; ops {:?}", sim.ops));
                         }
+                        if dec == sim.accepted {
+                            sim.given_since_complete = 0;
+                        }
                         if dec != sim.accepted {
                             let detail = format!("{cfg_desc}: after flush {} bytes were accepted but the consumer can decode only {} (equal prefix {}); ops {:?}", sim.accepted.len(), dec.len(), common_prefix(&dec, &sim.accepted), sim.ops);
                             // Whose fault? The chunk writer counts (verif-hooks) every byte it
                             // accepted on this thread. If the consumer has received exactly that
                             // many raw bytes, http-serve handed over everything it was given: the
                             // missing tail is still inside the compressor in front of it.
+                            // F6 (flate2's incomplete sync flush) needs flate2's 32 KiB output
+                            // buffer to be full when the flush arrives, i.e. at least about that
+                            // much input since the stream was last complete. A shortfall after
+                            // less input is a different failure (e.g. a drive loop that does not
+                            // drain the compressor) and is reported as the violation it is.
+                            let big_call = sim.given_since_complete >= F6_MIN_CALL;
                             let same_as_flate2_alone = sim.gzip && http_serve::verif::chunker_bytes() == sim.delivered.len() as u64;
-                            if same_as_flate2_alone {
+                            if same_as_flate2_alone && !big_call {
+                                ctx.stats.bump("c09_withheld_after_small_calls_only");
+                            }
+                            if same_as_flate2_alone && big_call {
                                 ctx.stats.bump("c09_compressor_withheld_bytes_after_flush");
                                 ctx.report(Violation { prop: "C09", oracle: "compressor-withholds-flushed-bytes", msg: format!("the chunk writer handed over every byte it was given ({} bytes), the compressor withholds the rest; {detail}", sim.delivered.len()) })?;
                             } else {
